@@ -43,6 +43,15 @@ Section C11.
               /\ (forall y, In y (entries (st c)) -> (fst e <= fst y)%Z)
               /\ Permutation (e :: entries (st c')) (entries (st c)).
   Proof. exact (gstack_conc_pop_min ls c c'). Qed.
+
+  (* ... and a Peek at any moment of any interleaving returns v for id exactly when (id, v) was issued by a Push
+     whose insertion has happened and which no Pop has removed: in particular a Push that has returned is found
+     until it is popped, whatever gaps concurrent pushers have left among the ids on the heap (seeded C11-r6m2) *)
+  Theorem C11_conc_peek (ls : list (@clabel V)) c id v :
+    crun cinit ls = Some c ->
+    (scan id (entries (st c)) = Some v
+     <-> In (id, v) (issued c) /\ ~ In (id, v) (pending c) /\ ~ In (id, v) (popped c)).
+  Proof. exact (gstack_conc_peek ls c id v). Qed.
 End C11.
 
 (* Race freedom: the lock skeleton REGENERATED from storage/genericStack.go on every run (which access to
@@ -62,8 +71,18 @@ Example C11_ex_conc :
             /\ map fst (popped c) = [1; 2]%Z /\ entries (st c) = [].
 Proof. eexists. split; [vm_compute; reflexivity|split; reflexivity]. Qed.
 
+(* a gap among the ids on the heap: the Push holding id 1 has not inserted yet, id 2 is on the stack and is found *)
+Example C11_ex_conc_peek_gap :
+  match crun (@cinit Z) [LPushId 10; LPushId 20; LPushIns 1]%Z with
+  | Some c => match scan 2%Z (entries (st c)), scan 1%Z (entries (st c)), pending c with
+              | Some 20%Z, None, [(1, 10)]%Z => true | _, _, _ => false end
+  | None => false
+  end = true.
+Proof. vm_compute. reflexivity. Qed.
+
 Print Assumptions C11_refines_queue.
 Print Assumptions C11_ids.
 Print Assumptions C11_conc_safe.
 Print Assumptions C11_conc_pop_min.
+Print Assumptions C11_conc_peek.
 Print Assumptions C11_race_free.
